@@ -257,7 +257,13 @@ def gen_history(seed, cname=None, size=None):
         r = rng.random()
         if r < 0.4:
             name, kw = rng.choice(choices)
-            ops.append({'op': 'deform', 'name': name, 'kwargs': kw})
+            op = {'op': 'deform', 'name': name, 'kwargs': kw}
+            if rng.random() < 0.2:
+                # Ctrl-C somewhere inside deform(), caught by the caller
+                op['ki_line'] = rng.choice([rng.randint(1, 12),
+                                            rng.randint(1, 80),
+                                            rng.randint(1, 600)])
+            ops.append(op)
         elif r < 0.7:
             k = rng.randint(1, 4)
             op = {'op': 'access', 'props': rng.sample(PROPS, k)}
@@ -275,7 +281,10 @@ def gen_history(seed, cname=None, size=None):
             ops.append({'op': 'noise', 'name': name, 'kwargs': kw,
                         'direction': list(rng.choice(DIRS)),
                         'p': rng.choice([0.05, 0.3])})
-        elif r < 0.96:
+        elif r < 0.94:
+            # what constructing a matching-type decoder does with a model
+            ops.append({'op': 'weights', 'which': rng.randrange(8)})
+        elif r < 0.97:
             ops.append({'op': 'cache_clear'})
         else:
             ops.append({'op': 'gc'})
@@ -333,7 +342,49 @@ def execute_here(plan, keep_events=False):
             sim.log.add(proc.pid, 'op', [oi, kind, op.get('name'),
                                          op.get('kwargs'), op.get('props')])
             try:
-                if kind == 'deform':
+                if kind == 'deform' and op.get('ki_line') is not None:
+                    tr = AccessTracer(op['ki_line'])
+                    sys.settrace(tr._g)
+                    interrupted = False
+                    try:
+                        try:
+                            obj.deform(op['name'], **op['kwargs'])
+                        finally:
+                            sys.settrace(None)
+                    except KeyboardInterrupt:
+                        interrupted = True
+                    if interrupted:
+                        # all or nothing: the object is either still the
+                        # code it was or already the newly deformed one -
+                        # never stabilizers of one and logicals / caches of
+                        # the other
+                        sim.count_fault('ki:inside_deform')
+                        if dirty:
+                            continue
+                        new = (op['name'], op['kwargs'])
+                        b_old = _safe_compare(model, obj, cur, noises, sim)
+                        b_new = None
+                        if b_old:
+                            b_new = _safe_compare(model, obj, new, noises,
+                                                  sim)
+                            if b_new is None:
+                                cur = new
+                        n_checks[0] += 1
+                        if b_old and b_new:
+                            b_old['class'] = ('half_deformed_after_'
+                                              'interrupted_deform')
+                            b_old['history'] = hist[-4:]
+                            b_old['interrupted_deform'] = [op['name'],
+                                                           op['kwargs']]
+                            violate(b_old.pop('class'), b_old)
+                            break
+                        continue
+                    cur = (op['name'], op['kwargs'])
+                    hist.append([op['name'], op['kwargs']])
+                    if dirty:
+                        sim.probe('deform_after_interrupted_property_build')
+                    dirty = False
+                elif kind == 'deform':
                     obj.deform(op['name'], **op['kwargs'])
                     if dirty:
                         sim.probe('deform_after_interrupted_property_build')
@@ -364,6 +415,11 @@ def execute_here(plan, keep_events=False):
                         dirty = True
                         sim.count_fault('ki:inside_property_build')
                         continue
+                elif kind == 'weights':
+                    if noises:
+                        nm_, op_ = noises[op['which'] % len(noises)]
+                        nm_.get_weights(obj, op_['p'])
+                        sim.probe('get_weights_called_on_shared_model')
                 elif kind == 'noise':
                     from panqec.error_models import PauliErrorModel
                     nm = PauliErrorModel(
@@ -411,6 +467,16 @@ def execute_here(plan, keep_events=False):
     finally:
         kernel.set_current(None)
     return _out(sim, violations, states, n_checks[0])
+
+
+def _safe_compare(model, obj, cur, noises, sim):
+    try:
+        return compare(model, obj, cur, noises, sim)
+    except HarnessError:
+        raise
+    except Exception as e:
+        return {'class': 'object_unusable_after_operation',
+                'exc': type(e).__name__, 'msg': str(e)[:160]}
 
 
 def execute(plan, **kw):
@@ -683,8 +749,10 @@ def systematic_plans(seed):
                         'direction': [0.1, 0.2, 0.7], 'p': 0.3},
                        {'op': 'noise', 'name': name, 'kwargs': kw,
                         'direction': [0.1, 0.2, 0.7], 'p': 0.3},
+                       {'op': 'weights', 'which': 1},
                        {'op': 'deform', 'name': other[0],
                         'kwargs': other[1]},
+                       {'op': 'weights', 'which': 0},
                        {'op': 'access', 'props': ['stabilizer_matrix',
                                                   'logicals_z', 'd']},
                        {'op': 'deform', 'name': name, 'kwargs': kw}]
